@@ -3,7 +3,7 @@ CONSTANTS
  Confs <- ShapeConfsGen
  MaxCloses = 4
  MaxOps = 2
- NormKeys = TRUE
+ KeyMode = "clean"
  Eager = FALSE
 INIT GInit
 NEXT GNext
